@@ -1,5 +1,6 @@
 /- Line-protocol verbs for the request pipeline (C01, C04, C05, C06, C18). -/
 import FwdVerif.Model.Req
+import FwdVerif.Model.ReqSeq
 
 namespace FwdVerif
 namespace Req
@@ -144,7 +145,34 @@ def answerConnect (cfg : Cfg) (ctx : Ctx) (c : ConnectReq) : String :=
   | .refused _ why => s!"{base} # {encodeErrorHeaders cfg why}"
   | _ => base
 
+/-- split a token list at the `|` tokens -/
+def splitSegments (toks : List String) : List (List String) :=
+  let rec go (cur : List String) (acc : List (List String)) : List String → List (List String)
+    | [] => (cur.reverse :: acc).reverse
+    | t :: ts => if t == "|" then go [] (cur.reverse :: acc) ts else go (t :: cur) acc ts
+  go [] [] toks
+
+/-- one event of a history: `req <cfg, ctx, request tokens>` or `resp fields=…` -/
+def decodeEvent : List String → Option Event
+  | "req" :: toks => do
+    let cfg ← decodeCfg toks
+    let ctx ← decodeCtx toks
+    let r ← decodeReq toks
+    some (.request cfg ctx r)
+  | "resp" :: toks => do
+    let fs ← decodeFields (kvD toks "fields" "~")
+    some (.response fs)
+  | _ => none
+
 def handle : List String → String
+  | "sequence" :: toks =>
+    -- a whole history handled by one process: `runProcess` from the initial state; one answer per event
+    match (splitSegments toks).mapM decodeEvent with
+    | some evs =>
+      " | ".intercalate ((runProcess {} evs).map fun
+        | some o => encodeOutcome o
+        | none => "resp")
+    | none => "bad-op"
   | "process" :: toks =>
     match decodeCfg toks, decodeCtx toks, decodeReq toks with
     | some cfg, some ctx, some r => encodeOutcome (processRequest cfg ctx r)
